@@ -326,6 +326,8 @@ TOPOS = {
   "tri": (3, [(0, 1, 1, 1), (1, 2, 2, 1), (2, 2, 0, 2)]),
   "square": (4, [(0, 1, 1, 1), (1, 2, 2, 1), (2, 2, 3, 1), (3, 2, 0, 2)]),
   "tri_par": (3, [(0, 1, 1, 1), (0, 3, 1, 3), (1, 2, 2, 1), (2, 2, 0, 2)]),
+  # a cable between two ports of one switch (a patch cord plugged back in)
+  "pair_self": (2, [(0, 1, 1, 1), (0, 3, 0, 4)]),
 }
 
 
